@@ -41,16 +41,19 @@ def execute(sc, fixed=None, log=None, fixed_sched=None, fixed_named=None):
         m = _execute1(sc, mod, fixed, dict(posmap), log, fixed_sched=fixed_sched, allow_missing=True, fixed_named=fixed_named)
     elif sc.mt:
         from . import mt
-        m = _execute1(sc, mod, fixed, None, None)
-        keys = {t: set(ks) for t, ks in m.sched.keys.items()}
+        if os.environ.get('XSYM_OLD_RANKING'):
+            m = _execute1(sc, mod, fixed, None, None)
+            keys = {t: set(ks) for t, ks in m.sched.keys.items()}
+        else:
+            keys = _discover(sc, mod, fixed)
         m = None
-        for attempt in range(5):
+        for attempt in range(6 * sc.K * sc.threads + 4):
             posmap = {}
             for t, ks in keys.items():
                 for i, k in enumerate(sorted(ks)): posmap[k] = i + 1
                 posmap[('n', t)] = len(ks) + 1
             try:
-                m = _execute1(sc, mod, fixed, posmap, log if attempt == 0 else None, fixed_sched=fixed_sched)
+                m = _execute1(sc, mod, fixed, posmap, log, fixed_sched=fixed_sched)
                 break
             except mt.MissingKey as e:
                 sch = e.args[0]
@@ -66,6 +69,19 @@ def execute(sc, fixed=None, log=None, fixed_sched=None, fixed_named=None):
     return m, mod, {'compile_s': ct, 'exec_s': time.time() - t0, 'ir_path': path}
 
 
+def _discover(sc, mod, fixed):
+    from . import mt
+    term.reset()
+    m = Machine(mod, nthreads=max(1, sc.threads), unwind=sc.unwind, unwind_map=sc.unwind_map)
+    m.uninit_zero = sc.uninit_zero; m.tolerant = True
+    if sc.sym_loop_cap: m.sym_loop_cap = sc.sym_loop_cap
+    if sc.max_recursion: m.max_recursion = sc.max_recursion
+    if fixed: m.fixed = dict(fixed)
+    m.run_ctors()
+    if 'vp_setup' in mod.funcs: m.run_entry('vp_setup')
+    return mt.discover(m, sc)
+
+
 def _execute1(sc, mod, fixed, posmap, log, strict=False, fixed_sched=None, allow_missing=False, fixed_named=None):
     term.reset()
     m = Machine(mod, nthreads=max(1, sc.threads), unwind=sc.unwind, unwind_map=sc.unwind_map)
@@ -76,6 +92,10 @@ def _execute1(sc, mod, fixed, posmap, log, strict=False, fixed_sched=None, allow
         from .race import Race
         m.race = Race(m, sc.threads)
     m.posmap = posmap
+    if sc.mt and posmap is not None and not os.environ.get('XSYM_NO_PRUNE') and not (fixed_sched or fixed_named):
+        from . import z3b
+        z3b.reset()
+        m.pruner = z3b.Pruner(timeout_ms=int(os.environ.get('XSYM_PRUNE_MS', '3000'))); m.prune_iter = True
     m.allow_missing = allow_missing
     if fixed_named: m.fixed_named = dict(fixed_named)
     m.fixed_sched = fixed_sched if posmap is not None else None
